@@ -141,6 +141,33 @@ theorem c04_no_panic (p : Packet) (dst : Bytes) : pktMarshalTo p dst ≠ .panic 
     · simp
     · next hp => exact absurd hp (c04_header_no_panic _ _)
     · split <;> simp
+/-- a destination too short even for the header is left untouched (packet and header call) -/
+theorem c04_short_untouched (p : Packet) (hwf : wfP p = true) (dst : Bytes)
+    (h : dst.length < hdrMarshalSize p.header) :
+    Pred.C04.pktToBuf p dst = dst ∧ Pred.C04.hdrToBuf p.header dst = dst := by
+  obtain ⟨_, hp⟩ := (wfP_iff p).1 hwf
+  have hh : Pred.C04.hdrToBuf p.header dst = dst := by
+    simp [Pred.C04.hdrToBuf, hdrMarshalTo_short _ _ h, h]
+  refine ⟨?_, hh⟩
+  unfold Pred.C04.pktToBuf
+  rw [padding_ok p hp]
+  have : pktMarshalTo p dst = .err .shortBuffer :=
+    pktMarshalTo_short p hwf dst (by unfold pktMarshalSize; omega)
+  simp [this, hh]
+
+/-- NOT part of C04, recorded because callers may assume otherwise: a destination that holds the
+    header but not the whole packet makes Packet.MarshalTo fail AFTER the header has been written
+    — the call is not atomic. -/
+theorem c04_short_partial_write (p : Packet) (hwf : wfP p = true) (dst : Bytes)
+    (h1 : hdrMarshalSize p.header ≤ dst.length) (h2 : dst.length < pktMarshalSize p) :
+    pktMarshalTo p dst = .err .shortBuffer ∧
+    Pred.C04.pktToBuf p dst = hdrWire p.header ++ dst.drop (hdrMarshalSize p.header) := by
+  obtain ⟨hh, hp⟩ := (wfP_iff p).1 hwf
+  have he := pktMarshalTo_short p hwf dst h2
+  refine ⟨he, ?_⟩
+  unfold Pred.C04.pktToBuf
+  rw [padding_ok p hp]
+  simp [he, Pred.C04.hdrToBuf, hdrMarshalTo_wf _ hh dst h1]
 /-! ### non-vacuity: the hypotheses are met by non-trivial packets, and the conclusion is the
     expected bytes (DESIGN §7 row 3: padding 4 after payload [1,2], destination all 0xEE) -/
 
@@ -153,6 +180,9 @@ example : pktMarshalSize exPad = 18 := by decide
 example : pktMarshalTo exPad (rep 20 0xEE) =
     .ok ([0xA0, 96, 0, 7, 0, 0, 0, 9, 0xAA, 0xBB, 0xCC, 0xDD, 1, 2, 0, 0, 0, 4, 0xEE, 0xEE], 18) := by decide
 example : pktMarshalTo exPad (rep 17 0xEE) = .err .shortBuffer := by decide
+/-- the failed call above has nevertheless written the 12 header bytes -/
+example : Pred.C04.pktToBuf exPad (rep 17 0xEE) =
+    [0xA0, 96, 0, 7, 0, 0, 0, 9, 0xAA, 0xBB, 0xCC, 0xDD, 0xEE, 0xEE, 0xEE, 0xEE, 0xEE] := by decide
 
 /-- one-byte extension whose block needs three bytes of zero padding, dirty destination -/
 def exExt : Header :=
